@@ -53,6 +53,12 @@ func genPacket(r *gen.Rand) (p packet.Packet, pay []byte, hasPay bool) {
 			// 183 leaves a payload of zero bytes: the payload flag is set but nothing is contributed
 			L = r.PickInt([]int{0, 1, 2, 181, 182, 183, 183})
 		}
+		if r.Chance(12) {
+			// "all packets": an adaptation field that runs past the packet leaves no payload
+			L = r.PickInt([]int{184, 185, 200, 250, 251, 252, 253, 254, 255, 184 + r.Intn(72)})
+			p[4] = byte(L)
+			return p, nil, false
+		}
 		p[4] = byte(L)
 		if L > 0 {
 			p[5] = 0
@@ -71,6 +77,9 @@ func payloadOf(p *packet.Packet) ([]byte, bool) {
 	}
 	if p[3]&0x20 == 0 {
 		return p[4:], true
+	}
+	if 5+int(p[4]) > 188 {
+		return nil, false
 	}
 	return p[5+int(p[4]):], true
 }
